@@ -70,8 +70,29 @@ Section MainFacts.
                    else Some (map bi_out (filter (selected_build c) builds)) in
     let argv := ninja_argv file (Nat.ltb 0 (mc_verbose c)) targets (mc_jobs c) (Some (mc_keep_going c)) in
     main_after_generate ninja_ok task_ok builds file c =
-    {| o_actions := [ANinja argv]; o_exit := if ninja_ok argv then 0 else 1 |}.
+    match targets with
+    | Some [] => {| o_actions := []; o_exit := 0 |}
+    | _ => {| o_actions := [ANinja argv]; o_exit := if ninja_ok argv then 0 else 1 |}
+    end.
   Proof. intros Ht Hg. unfold main_after_generate. rewrite Ht, Hg. reflexivity. Qed.
+
+  (* ninja never runs without explicit targets unless nothing was selected away: an invocation either
+     names at least one target, or the command line selects every builder and every app *)
+  Theorem plain_build_targets builds file c argv :
+    mc_task c = None ->
+    In (ANinja argv) (o_actions (main_after_generate ninja_ok task_ok builds file c)) ->
+    (is_all (mc_builders c) && is_all (mc_apps c) = true /\
+     argv = ninja_argv file (Nat.ltb 0 (mc_verbose c)) None (mc_jobs c) (Some (mc_keep_going c))) \/
+    (exists t ts, map bi_out (filter (selected_build c) builds) = t :: ts /\
+     argv = ninja_argv file (Nat.ltb 0 (mc_verbose c)) (Some (t :: ts)) (mc_jobs c) (Some (mc_keep_going c))).
+  Proof.
+    intros Ht. unfold main_after_generate. rewrite Ht.
+    destruct (mc_generate_only c); [intros []|].
+    destruct (is_all (mc_builders c) && is_all (mc_apps c)) eqn:Eall.
+    - cbn [o_actions]. intros [E|[]]. injection E as <-. left. split; reflexivity.
+    - destruct (map bi_out (filter (selected_build c) builds)) as [|t ts] eqn:Em; cbn [o_actions]; [intros []|].
+      intros [E|[]]. injection E as <-. right. exists t, ts. split; reflexivity.
+  Qed.
 
   Theorem generate_only_runs_nothing builds file c :
     mc_task c = None -> mc_generate_only c = true ->
